@@ -59,11 +59,14 @@ type Ctx struct {
 	// normalisation log: which new helpers were inlined back where (inline.go)
 	InlineLog []string
 
-	cg      *callgraph.Graph
-	pit     []pitfall
-	reach   map[string]map[string]bool
-	deadNew map[*types.Func]bool
-	succ    map[string]*ssa.Function
+	cg        *callgraph.Graph
+	pit       []pitfall
+	allObs    map[string][]Obligation
+	grd       []guard
+	funcLines map[string][]funcSpan
+	reach     map[string]map[string]bool
+	deadNew   map[*types.Func]bool
+	succ      map[string]*ssa.Function
 }
 
 // Callees resolves a call instruction through the VTA call graph built over the
